@@ -579,4 +579,137 @@ theorem Plan.run_stopper (S : ε → Prop) (stop : α → Bool) (onStop : α →
       · exact e1 e he
       · exact i1 e he
 
+/-- polled with every gate open at the end, the future is complete — for every plan and every schedule before that -/
+theorem Plan.run_allOpen_done (gs : List Gates) : ∀ pl : Plan ε α ρ, ((pl.run (gs ++ [allOpen])).2).isDone = true := by
+  induction gs with
+  | nil => intro pl; simp [Plan.run, Plan.poll_allOpen, Plan.isDone]
+  | cons g gs ih => intro pl; simp only [List.cons_append, Plan.run]; exact ih _
+
+/-! ### The step barrier — under every schedule
+
+  `lv` gives every event a level (its step number).  A plan is *leveled at `n`* when the events of its current step's
+  operands have level `n`, the events emitted on entering the next step have level `n + 1`, and the rest of the plan is
+  leveled at `n + 1`.  Then, whatever gates are open at whatever polls, the levels along the emitted events never
+  decrease: nothing of step `n + 1` before every operand of step `n` has finished. -/
+
+inductive Plan.Leveled (lv : ε → Nat) : Nat → Plan ε α ρ → Prop
+  | done (n : Nat) (r : ρ) : Plan.Leveled lv n (.done r)
+  /-- operands at level `n`, the events of entering the next step at `a ≥ n`, the rest of the plan at `b ≥ a` -/
+  | step (n a b : Nat) (hna : n ≤ a) (hab : a ≤ b) (stop : α → Bool) (onStop : α → ρ) (ts : List (Task ε α))
+      (pre : List α → List ε) (next : List α → Plan ε α ρ) (ht : ∀ t ∈ ts, ∀ e ∈ t.allEvs, lv e = n)
+      (hp : ∀ outs, ∀ e ∈ pre outs, lv e = a)
+      (hn : ∀ outs, Plan.Leveled lv b (next outs)) : Plan.Leveled lv n (.step stop onStop ts pre next)
+
+theorem pairwise_const_level (lv : ε → Nat) (l : List ε) (k : Nat) (hl : ∀ e ∈ l, lv e = k) :
+    (l.map lv).Pairwise (· ≤ ·) := by
+  rw [List.pairwise_map]
+  exact List.Pairwise.imp_of_mem (R := fun _ _ => True)
+    (fun {a b} ha hb _ => by rw [hl a ha, hl b hb]; exact Nat.le_refl _) (List.pairwise_of_forall (fun _ _ => trivial))
+
+theorem Plan.Leveled.poll (lv : ε → Nat) (op : Gates) {n : Nat} {pl : Plan ε α ρ} (h : pl.Leveled lv n) :
+    ∃ m, n ≤ m ∧ (pl.poll op).2.Leveled lv m ∧ ((pl.poll op).1.map lv).Pairwise (· ≤ ·) ∧
+      ∀ e ∈ (pl.poll op).1, n ≤ lv e ∧ lv e ≤ m := by
+  induction h with
+  | done n r => exact ⟨n, Nat.le_refl _, .done n r, by simp [Plan.poll], fun e he => by simp [Plan.poll] at he⟩
+  | step n a b hna hab stop onStop ts pre next ht hp hn ih =>
+    obtain ⟨e1, e2⟩ := pollStep_events_in op stop ts (fun e => lv e = n) ht
+    have hconst : ∀ l : List ε, (∀ e ∈ l, lv e = n) → (l.map lv).Pairwise (· ≤ ·) := fun l hl => pairwise_const_level lv l n hl
+    simp only [Plan.poll]
+    cases hps : (pollStep op stop ts).2.2 with
+    | some x =>
+      exact ⟨n, Nat.le_refl _, .done n _, hconst _ e1, fun e he => by rw [e1 e he]; exact ⟨Nat.le_refl _, Nat.le_refl _⟩⟩
+    | none =>
+      simp only
+      split
+      · obtain ⟨m, hm, hl, hs, hb⟩ := ih ((pollStep op stop ts).2.1.map (·.out))
+        refine ⟨m, by omega, hl, ?_, ?_⟩
+        · rw [List.map_append, List.map_append, List.pairwise_append, List.pairwise_append]
+          refine ⟨⟨hconst _ e1, pairwise_const_level lv _ a (hp _), ?_⟩, hs, ?_⟩
+          · intro u hu v hv
+            obtain ⟨x, hx, rfl⟩ := List.mem_map.mp hu
+            obtain ⟨y, hy, rfl⟩ := List.mem_map.mp hv
+            rw [e1 x hx, hp _ y hy]; omega
+          · intro u hu v hv
+            obtain ⟨y, hy, rfl⟩ := List.mem_map.mp hv
+            have := (hb y hy).1
+            rcases List.mem_append.mp hu with hu | hu
+            · obtain ⟨x, hx, rfl⟩ := List.mem_map.mp hu; rw [e1 x hx]; omega
+            · obtain ⟨x, hx, rfl⟩ := List.mem_map.mp hu; rw [hp _ x hx]; omega
+        · intro e he
+          rcases List.mem_append.mp he with he | he
+          · rcases List.mem_append.mp he with he | he
+            · rw [e1 e he]; omega
+            · rw [hp _ e he]; omega
+          · have := hb e he; omega
+      · exact ⟨n, Nat.le_refl _, .step n a b hna hab stop onStop _ pre next e2 hp hn, hconst _ e1,
+          fun e he => by rw [e1 e he]; exact ⟨Nat.le_refl _, Nat.le_refl _⟩⟩
+
+/-- **Barrier, every schedule.**  Along any sequence of polls of a leveled plan the levels of the emitted events never
+    decrease. -/
+theorem Plan.Leveled.run (lv : ε → Nat) (gs : List Gates) : ∀ {n : Nat} {pl : Plan ε α ρ}, pl.Leveled lv n →
+    ∃ m, n ≤ m ∧ (pl.run gs).2.Leveled lv m ∧ ((pl.run gs).1.map lv).Pairwise (· ≤ ·) ∧
+      ∀ e ∈ (pl.run gs).1, n ≤ lv e ∧ lv e ≤ m := by
+  induction gs with
+  | nil => intro n pl h; exact ⟨n, Nat.le_refl _, h, by simp [Plan.run], fun e he => by simp [Plan.run] at he⟩
+  | cons g gs ih =>
+    intro n pl h
+    obtain ⟨m1, hm1, hl1, hs1, hb1⟩ := h.poll lv g
+    obtain ⟨m2, hm2, hl2, hs2, hb2⟩ := ih hl1
+    refine ⟨m2, by omega, hl2, ?_, ?_⟩
+    · simp only [Plan.run, List.map_append, List.pairwise_append]
+      refine ⟨hs1, hs2, ?_⟩
+      intro u hu v hv
+      obtain ⟨x, hx, rfl⟩ := List.mem_map.mp hu
+      obtain ⟨y, hy, rfl⟩ := List.mem_map.mp hv
+      have := hb1 x hx; have := hb2 y hy; omega
+    · intro e he
+      simp only [Plan.run] at he
+      rcases List.mem_append.mp he with he | he
+      · have := hb1 e he; omega
+      · have := hb2 e he; omega
+
+/-- every event the plan can ever emit satisfies `P` -/
+inductive Plan.EvAll (P : ε → Prop) : Plan ε α ρ → Prop
+  | done (r : ρ) : Plan.EvAll P (.done r)
+  | step (stop : α → Bool) (onStop : α → ρ) (ts : List (Task ε α)) (pre : List α → List ε) (next : List α → Plan ε α ρ)
+      (ht : ∀ t ∈ ts, ∀ e ∈ t.allEvs, P e) (hp : ∀ outs, ∀ e ∈ pre outs, P e)
+      (hn : ∀ outs, Plan.EvAll P (next outs)) : Plan.EvAll P (.step stop onStop ts pre next)
+
+theorem Plan.EvAll.poll (P : ε → Prop) (op : Gates) {pl : Plan ε α ρ} (h : pl.EvAll P) :
+    (∀ e ∈ (pl.poll op).1, P e) ∧ (pl.poll op).2.EvAll P := by
+  induction h with
+  | done r => exact ⟨fun e he => by simp [Plan.poll] at he, .done r⟩
+  | step stop onStop ts pre next ht hp hn ih =>
+    obtain ⟨e1, e2⟩ := pollStep_events_in op stop ts P ht
+    simp only [Plan.poll]
+    cases hps : (pollStep op stop ts).2.2 with
+    | some a => exact ⟨e1, .done _⟩
+    | none =>
+      simp only
+      split
+      · obtain ⟨i1, i2⟩ := ih ((pollStep op stop ts).2.1.map (·.out))
+        refine ⟨?_, i2⟩
+        intro e he
+        rcases List.mem_append.mp he with he | he
+        · rcases List.mem_append.mp he with he | he
+          · exact e1 e he
+          · exact hp _ e he
+        · exact i1 e he
+      · exact ⟨e1, .step stop onStop _ pre next e2 hp hn⟩
+
+theorem Plan.EvAll.run (P : ε → Prop) (gs : List Gates) : ∀ {pl : Plan ε α ρ}, pl.EvAll P →
+    (∀ e ∈ (pl.run gs).1, P e) ∧ (pl.run gs).2.EvAll P := by
+  induction gs with
+  | nil => intro pl h; exact ⟨fun e he => by simp [Plan.run] at he, h⟩
+  | cons g gs ih =>
+    intro pl h
+    obtain ⟨p1, p2⟩ := h.poll P g
+    obtain ⟨i1, i2⟩ := ih p2
+    refine ⟨?_, i2⟩
+    intro e he
+    simp only [Plan.run] at he
+    rcases List.mem_append.mp he with he | he
+    · exact p1 e he
+    · exact i1 e he
+
 end JoinModel
